@@ -56,7 +56,8 @@ AuthAsserts(P, a, r) ==
     /\ A("nonce", "request honoured although its nonce is not above the last accepted / not fresh",
          (a.alter \in SameSig /\ ~Refused(r)) => NonceHigher(P, a.ident, a.nonce) /\ ~NonceMustStale(P, a.nonce))
     /\ A("noncefull", "nonce decision", a.alter \in SameSig => NonceDecisionOK(P, a.ident, a.nonce, ~Refused(r)))
-    /\ A("exact", "refusal class", Refused(r) => r.err = AuthErr(a))
+    \* (a legacy-signed update is verified twice - current payload, then legacy payload - and reports the first failure)
+    /\ A("exact", "refusal class", Refused(r) => (r.err = AuthErr(a) \/ (a.alter = "legacy" /\ r.err = "verify:sig")))
     \* C06: the owner is refused for its nonce although the nonce is above every
     \* accepted one and fresh - and an earlier *refused* request carried a nonce >= it
     /\ A("refused", "a refused request consumed the owner's nonce",
@@ -109,6 +110,11 @@ ConnectStep(ln, a0) ==
                /\ A("lowbal", "connect refusal for balance", low = LowAtConnect(P1, a, uri))
                /\ A("lowbal", "reported balance at connect", low => r.val = e.res.val)
                /\ A("billing", "billing restarts at connect", (r.ok /\ Has(ln.st.node, a.ident)) => ln.st.node[a.ident].seen = e.st.now)
+               \* who pays and who is held to the minimum is decided by the role of the *latest* registration
+               /\ A("billing", "role stored at connect (hosts never pay, light clients do)",
+                    (r.ok /\ Has(ln.st.node, a.ident)) => ln.st.node[a.ident].host = a.full)
+               /\ A("lowbal", "role stored at connect (hosts are never refused for balance, light clients are)",
+                    (Has(ln.st.node, a.ident) /\ (r.ok \/ low)) => ln.st.node[a.ident].host = a.full)
                /\ A("exact", "connect result", SameRes(r, e.res))
                /\ NoCalls(ln.st)
                /\ PFinish(e.st, ln)
